@@ -31,7 +31,7 @@ def gen_fst(rng, max_states=4, max_trans=6, allow_int=True, pool=None):
     mode = rng.pick(HASH_MODES) if valmode == "str" else "plain"
     case = {"states": states, "inputs": inputs, "trans": trans, "starts": starts, "finals": finals,
             "valmode": valmode, "hash": assign_hashes(rng, sorted("S:" + s for s in states), mode), "hashmode": mode,
-            "bulk": rng.chance(0.15)}
+            "bulk": rng.chance(0.15), "out_form": rng.pick(["list", "list", "list", "tuple", "iter", "kept"])}
     make_eps_cycles_silent(case)
     return case
 
@@ -87,12 +87,28 @@ def build(case):
         f.add_start_state(sv(case, s))
     for s in case["finals"]:
         f.add_final_state(sv(case, s))
+    form = case.get("out_form", "list")
+    kept = []
+
+    def outs(o, reads=True):
+        """the output word in the form the caller hands it over (`output_symbols : iterable of Any`): a list, a tuple, a
+        one-shot iterator, or a list the caller goes on using (it gets a further element once the FST is built)"""
+        if form == "tuple":
+            return tuple(o)
+        if form == "iter":
+            return iter(list(o))
+        o = list(o)
+        if form == "kept" and reads:        # (not on epsilon-input moves: an edit that leaked into a cycle never ends)
+            kept.append(o)
+        return o
     if case.get("bulk"):
-        f.add_transitions([(sv(case, p), "epsilon" if a is None else a, sv(case, q), list(o))
+        f.add_transitions([(sv(case, p), "epsilon" if a is None else a, sv(case, q), outs(o, a is not None))
                            for p, a, q, o in case["trans"]])
-        return f
-    for p, a, q, o in case["trans"]:
-        f.add_transition(sv(case, p), "epsilon" if a is None else a, sv(case, q), list(o))
+    else:
+        for p, a, q, o in case["trans"]:
+            f.add_transition(sv(case, p), "epsilon" if a is None else a, sv(case, q), outs(o, a is not None))
+    for o in kept:
+        o.append("caller's later edit")
     return f
 
 
@@ -121,6 +137,8 @@ def shrink_fst(case):
     tr = case["trans"]
     if case.get("bulk"):
         yield mk(bulk=False)
+    if case.get("out_form", "list") != "list":
+        yield mk(out_form="list")
     for i in range(len(tr)):
         yield mk(trans=tr[:i] + tr[i + 1:])
     for i, t in enumerate(tr):
